@@ -258,6 +258,7 @@ func runC11(c *Ctx) {
 	c11DuringConnect(c)
 	c11Reconnecting(c)
 	c11LateAcks(c)
+	c11PingPending(c)
 	if last != nil {
 		c.Sample(map[string]any{"wire": last.TraceStrings()})
 	}
@@ -443,6 +444,14 @@ func (p c11Peer) OnData(c *env.Conn, data []byte) error {
 		default:
 			c.Send(env.EncConnAck(false, 0), "")
 		}
+	case env.PUBLISH:
+		if pk.QoS == 1 {
+			c.Send(env.EncAck(env.PUBACK, pk.ID), "")
+		}
+	case env.SUBSCRIBE:
+		c.Send(env.EncSubAck(pk.ID, make([]byte, len(pk.Filters))), "")
+	case env.UNSUBSCRIBE:
+		c.Send(env.EncAck(env.UNSUBACK, pk.ID), "")
 	case env.DISCONNECT:
 		c.PeerClose("DISCONNECT received")
 	}
@@ -553,6 +562,68 @@ func c11LateAcks(c *Ctx) {
 					if strings.HasPrefix(t.Name, "connect:") && !t.Done {
 						vrt.Failf("c11/reader-still-running:late-acks:"+cl.name, "the reader goroutine is still blocked in %s after the connection ended", t.Blocked)
 					}
+				}
+			},
+			Observe: func() uint64 { return net.TraceHash() },
+		}
+		c.Explore(sc)
+	}
+}
+
+// c11PingPending: a Ping issued through the retrying / reconnecting client is outstanding on a
+// silent link; other calls on the same client must still return (when their own context ends at
+// the latest).
+func c11PingPending(c *Ctx) {
+	c.Bound("rc-ping-pending", "ReconnectClient: Ping outstanding (the broker never answers PINGREQ) while Publish / Subscribe / Unsubscribe / Disconnect are called with a 1 s deadline; P<=1")
+	for _, op := range []string{"publish", "subscribe", "unsubscribe", "disconnect"} {
+		op := op
+		var net *env.Net
+		sc := &vrt.Scenario{
+			Name:  "C11/rc-ping-pending/" + op,
+			Bound: vrt.Budget{P: 1},
+			Cfg:   vrt.Config{Horizon: int64(60 * time.Second)},
+			Body: func() {
+				net = env.NewNet()
+				b := env.NewBroker(net)
+				dialer := mqtt.DialerFunc(func(ctx vctx.Context) (*mqtt.BaseClient, error) {
+					conn := net.NewConn(c11Peer{b: b, mode: "no-pingresp"})
+					return &mqtt.BaseClient{Transport: conn}, nil
+				})
+				rc, _ := mqtt.NewReconnectClient(dialer, mqtt.WithReconnectWait(time.Second, 4*time.Second))
+				bg := vctx.Background()
+				if _, err := rc.Connect(bg, "c11"); err != nil {
+					vrt.Failf("harness", "connect: %v", err)
+					return
+				}
+				pctx, pcancel := vctx.WithCancel(bg)
+				pingRet := false
+				vrt.Go("rc-ping", func() { rc.Ping(pctx); pingRet = true })
+				vrt.Settle()
+				ctx, cancel := vctx.WithTimeout(bg, time.Second)
+				ret := false
+				vrt.Go("rc-"+op, func() {
+					switch op {
+					case "publish":
+						rc.Publish(ctx, &mqtt.Message{Topic: "t", QoS: mqtt.QoS1, Payload: []byte("x")})
+					case "subscribe":
+						rc.Subscribe(ctx, mqtt.Subscription{Topic: "a", QoS: mqtt.QoS1})
+					case "unsubscribe":
+						rc.Unsubscribe(ctx, "a")
+					case "disconnect":
+						rc.Disconnect(ctx)
+					}
+					ret = true
+				})
+				vrt.Sleep(int64(5 * time.Second))
+				vrt.Settle()
+				if !ret {
+					vrt.Failf("c11/still-blocked:rc-"+op+":behind-pending-ping", "%s on the reconnecting client has not returned 4 s after its deadline while a Ping is outstanding on a silent link", op)
+				}
+				cancel()
+				pcancel()
+				vrt.Quiesce()
+				if !pingRet {
+					vrt.Failf("c11/still-blocked:rc-ping:cancel", "Ping on the reconnecting client does not return after its context was cancelled")
 				}
 			},
 			Observe: func() uint64 { return net.TraceHash() },
